@@ -8,6 +8,7 @@ fail=0
 ev=$(mktemp -d); cp -a evidence/. "$ev"/ 2>/dev/null
 for d in seeded/${1:-}*/; do
   n=$(basename "$d"); pid=$(jq -r .property "$d/meta.json")
+  if [ "$(jq -r '.status // "active"' "$d/meta.json")" = "neutralised" ]; then echo "$n: skipped (no longer a violation: see meta.json)"; continue; fi
   patch=$(ls "$d"/*.diff | head -1)
   if ! git -C /repo apply --check "$(pwd)/$patch" 2>/dev/null; then echo "$n: PATCH-DOES-NOT-APPLY"; fail=1; continue; fi
   git -C /repo apply "$(pwd)/$patch"
